@@ -420,12 +420,7 @@ def _kinds(db, r5):
     else:
         r5.ok('predicate-tables', '8 predicates x 8 kinds')
     cc = db.fn(S + 'SchemaAuditor::CheckConstituenta')
-    txt = ' '.join(c.get('txt', '') for n in cc.walk() if n['k'] == 'IfStmt' for c in [cc.stmts[n['cond']]])
-    for label, needles in (('base-empty', ('isBaseSet', 'empty(definition)')), ('callable-args', ('isCallable', 'GetDeclarationArgs')), ('logical-typed', ('isLogical', 'holds_alternative'))):
-        if all(w in txt for w in needles):
-            r5.ok('CheckConstituenta:' + label, 'constraint enforced with a critical error')
-        else:
-            r5.violation('CheckConstituenta:' + label, '%s:%d' % (cc.file, cc.line), 'the constituent-kind constraint %s is no longer enforced' % label)
+    _check_constituenta_evaluated(db, r5, cc, cst)
     errs = [n for n in cc.calls() if (n.get('cs') or '').endswith('SchemaAuditor::OnError')]
     rets = [(p, r) for p, r in cc.return_sites() if cc.return_literal(r) == 'false']
     sites = [cc.position_of(n) for n in errs] + [p for p, n in call_sites(cc, lambda n: (n.get('cs') or '').endswith('Auditor::CheckType'))]
@@ -434,6 +429,92 @@ def _kinds(db, r5):
         r5.violation('CheckConstituenta:loud', cc.loc(silent[0]), 'a kind violation is refused without logging an error')
     else:
         r5.ok('CheckConstituenta:loud', 'every refusal is logged (or comes from the expression check)')
+
+
+def _check_constituenta_evaluated(db, r5, cc, cst):
+    """SchemaAuditor::CheckConstituenta interpreted from its source for every constituent kind, four definition texts (none, blank, blank with
+    a tab and a line feed, an expression) and the four outcomes of the expression check (with / without declared arguments, typed / logical).
+    Supplied: the expression check itself (it succeeds; the parsed declaration has a definition child exactly when the text after the
+    definition sign is not blank - what the grammar does with blank text), the generator (alias, sign, definition) and the error sink.
+    Required: base sets have no definition, every other kind has one that the parser sees, functions and predicates declare arguments and
+    nothing else does, axioms / theorems / predicates are logical and nothing else is; every refusal logs an error."""
+    from engine.evalmini import Obj, NOT_HANDLED
+    S = 'ccl::semantic::'
+    labels = {'base-empty': None, 'derived-defined': None, 'callable-args': None, 'logical-typed': None, 'loud-evaluated': None}
+    n_cases = 0
+    base = {'base', 'constant'}
+    callable_ = {'function', 'predicate'}
+    logical = {'axiom', 'theorem', 'predicate'}
+    try:
+        for kind, kv in sorted(cst.items()):
+            for definition in (b'', b' ', b' \t\n', b'X1'):
+                for has_args in (False, True):
+                    for is_logic in (False, True):
+                        log = []
+                        blank = not definition.strip()
+                        if blank and (has_args or is_logic):
+                            continue                  # a declaration without a definition is typed ℬ(alias) and declares no arguments
+                        ast = Obj(__kind__='ast', children=1 if blank else 2)
+
+                        def on_call(it, fn, n, env, ast=ast, log=log, has_args=has_args, is_logic=is_logic):
+                            cs = n.get('cs') or ''
+                            last = cs.split('::')[-1]
+                            Sx = fn.stmts
+                            if last == 'GlobalDefinition':
+                                a = [it.eval(fn, Sx[x], env) for x in n['args']]
+                                return bytearray(bytes(a[0]) + b':==' + bytes(a[1]))
+                            if last == 'Clear' and 'ErrorLogger' in cs:
+                                return None
+                            if last == 'CheckType' and 'Auditor' in cs:
+                                return True
+                            if last == 'GetDeclarationArgs':
+                                return [Obj(name=b'a')] if has_args else []
+                            if last == 'GetType' and 'Auditor' in cs:
+                                return 'LOGIC' if is_logic else Obj(__kind__='typ')
+                            if cs == 'std::holds_alternative' and n.get('args'):
+                                v = it.eval(fn, Sx[n['args'][0]], env)
+                                want_t = 'Typification' in (n.get('targs') or [''])[0]
+                                return (v != 'LOGIC') == want_t
+                            if last == 'AST' and ('Parser' in cs or 'Auditor' in cs):
+                                return ast
+                            if last == 'Root' and 'SyntaxTree' in cs:
+                                return ast
+                            if last == 'ChildrenCount':
+                                return ast['children']
+                            if last == 'OnError' and cs.startswith(S + 'SchemaAuditor'):
+                                log.append(it.eval(fn, Sx[n['args'][0]], env))
+                                return None
+                            if cs == '__assert_fail':
+                                return None
+                            return NOT_HANDLED
+                        this = Obj(__cls__=S + 'SchemaAuditor', prefixLen=0, auditor=Obj(isParsed=True, isTypeCorrect=True, isValueCorrect=True, parser=Obj(log=Obj(), syntax=0)))
+                        got = bool(Interp(db, on_call=on_call, max_steps=200000).call(cc, [bytearray(b'A1'), bytearray(definition), kv], this))
+                        n_cases += 1
+                        show = '%s with the definition %r (%s arguments, %s result)' % (kind, definition.decode(), 'declared' if has_args else 'no', 'logical' if is_logic else 'typed')
+                        if kind in base:
+                            if definition == b'' and not has_args and not is_logic and not got:
+                                labels['base-empty'] = labels['base-empty'] or 'a %s is refused' % show
+                            if not blank and got:
+                                labels['base-empty'] = labels['base-empty'] or 'a %s is accepted' % show
+                        else:
+                            if blank and got:
+                                labels['derived-defined'] = labels['derived-defined'] or ('a %s is accepted: the parser reads the generated text `A1:==%s` as the declaration of a new base set, so the constituent is typed ℬ(A1) '
+                                                                                     'and typifications are built over a name that is not a base set' % (show, definition.decode().replace('\n', '\\n').replace('\t', '\\t')))
+                            if not blank:
+                                want = ((kind in callable_) == has_args) and ((kind in logical) == is_logic)
+                                if got != want:
+                                    which = 'callable-args' if (kind in callable_) != has_args else 'logical-typed'
+                                    labels[which] = labels[which] or 'a %s is %s' % (show, 'accepted' if got else 'refused')
+                        if not got and not log:
+                            labels['loud-evaluated'] = labels['loud-evaluated'] or 'a %s is refused without an error' % show
+    except OutOfFragment as e:
+        r5.broken('SchemaAuditor::CheckConstituenta outside the evaluable fragment: %s' % e)
+        return
+    for label, badmsg in labels.items():
+        if badmsg:
+            r5.violation('CheckConstituenta:' + label, '%s:%d' % (cc.file, cc.line), badmsg)
+        else:
+            r5.ok('CheckConstituenta:' + label, 'constraint enforced with an error on %d (kind, definition, outcome) cases' % n_cases)
 
 
 # ---------------------------------------------------------------------------------------------------------------- value classes
@@ -982,7 +1063,8 @@ def _tuple(ts):
 
 
 def _arith(t):
-    return t[0] == 'e' and (t == ZT or t[1].startswith('C'))
+    # an operand of unknown type (an element of the empty set) is merged with the other operand, as in every other rule
+    return t == ANY or (t[0] == 'e' and (t == ZT or t[1].startswith('C')))
 
 
 def _ref_rule(name, tok, ts, idx):
@@ -1032,14 +1114,14 @@ def _ref_rule(name, tok, ts, idx):
         if d is None:
             return ('err', 0)
         if d == ANY:
-            return ('ok', EMPTY)
+            return ('ok', EMPTY) if all(i >= 1 for i in idx) else ('err', 0)      # index 0 selects a component of no tuple, whatever the unknown type is
         if d[0] != 't' or any(not (1 <= i <= len(d[1])) for i in idx):
             return ('err', 0)
         return ('ok', ('b', _tuple([d[1][i - 1] for i in idx])))
     if name == 'ViProjectTuple':
         a = ts[0]
         if a == ANY:
-            return ('ok', ANY)
+            return ('ok', ANY) if all(i >= 1 for i in idx) else ('err', 0)
         if a[0] != 't' or any(not (1 <= i <= len(a[1])) for i in idx):
             return ('err', 0)
         return ('ok', _tuple([a[1][i - 1] for i in idx]))
@@ -1069,10 +1151,18 @@ def _ref_rule(name, tok, ts, idx):
         if not tuple_param and len(ts) > 2:
             return ('err', 'self')
         if arg == ANY or arg == EMPTY:
-            for i, p in enumerate(params):            # the components are unknown, but a filter parameter is a set in any case
-                if p[0] != 'b':                       # as on the typed path: a parameter of unknown type is not accepted either
-                    return ('err', i)
-            return ('ok', EMPTY)
+            offending = set()                         # several operands can offend at once: the error may name any of them
+            if any(i < 1 for i in idx):
+                offending.add(len(ts) - 1)            # no tuple has a component 0
+            if tuple_param:
+                for i, p in enumerate(params):        # the components are unknown, but a filter parameter is a set in any case
+                    if p[0] != 'b':                   # as on the typed path: a parameter of unknown type is not accepted either
+                        offending.add(i)
+            else:                                     # one parameter for several indices: a set of tuples of that many components
+                p = params[0]
+                if p[0] != 'b' or _lub(('b', ('t', tuple(ANY for _ in idx))), p) is None:
+                    offending.add(0)
+            return ('err', frozenset(offending)) if offending else ('ok', EMPTY)
         if arg[0] != 'b' or arg[1][0] != 't' or any(not (1 <= i <= len(arg[1][1])) for i in idx):
             return ('err', len(ts) - 1)
         bases = [arg[1][1][i - 1] for i in idx]
@@ -1085,6 +1175,13 @@ def _ref_rule(name, tok, ts, idx):
             if p[0] != 'b' or _lub(('b', _tuple(bases)), p) is None:
                 return ('err', 0)
         return ('ok', arg)
+    if name == 'ViTupleDeclaration':
+        t, k = ts[0], idx[0]
+        if t == ANY:
+            return ('ok', ANY)                        # nothing is known about the element: neither are its components (as pr_i of it)
+        if t[0] == 't' and len(t[1]) == k:
+            return ('ok', t)
+        return ('err', 0)
     raise AnalysisBroken('no reference rule for %s' % name)
 
 
@@ -1105,6 +1202,7 @@ TYPING_CASES = [   # (method, token kinds it is dispatched for, operand counts, 
     ('ViEquals', ['EQUAL', 'NOTEQUAL'], (2,), [None]),
     ('ViSetexprPredicate', ['IN', 'NOTIN', 'SUBSET', 'SUBSET_OR_EQ', 'NOTSUBSET'], (2,), [None]),
     ('ViFilter', ['FILTER'], (2, 3), [[1], [2], [1, 2], [2, 1], [3], [0]]),
+    ('ViTupleDeclaration', ['NT_TUPLE_DECL'], (1,), [[2], [3]]),      # the "index" is the number of variables of the binder; the operand is the type of the bound element
 ]
 
 
@@ -1114,6 +1212,10 @@ def _small_universe():
     P = lambda *ts: ('t', tuple(ts))
     return [ANY, ZT, C1, X1, X2, B(ANY), B(ZT), B(C1), B(X1), B(X2), B(B(X1)), B(B(ANY)), P(X1, X2), P(X1, ANY), P(ZT, C1), B(P(X1, X2)), B(P(X1, ANY)), B(P(ANY, X2)),
             B(B(P(X1, X2))), P(P(X1, X2), ZT), B(P(P(X1, X2), ZT)), B(P(X1, X2, ZT)), P(B(X1), B(X2))]
+
+
+def _at(got, want):
+    return got in want if isinstance(want, frozenset) else got == want
 
 
 def typing_rules(db, rule, tier='quick'):
@@ -1130,6 +1232,12 @@ def typing_rules(db, rule, tier='quick'):
     def run(f, tok, ts, idx):
         log = []
         this = Obj(currentType=None, env=Obj(context=Obj()), noWarnings=Obj(value=False, guardCounter=0), reporter=None)
+        binder = f.name.endswith('::ViTupleDeclaration')
+        if binder:
+            this['currentType'] = T(ts[0])
+            this['isLocalDeclaration'] = Obj(value=True, guardCounter=1)
+            this['isFuncDeclaration'] = Obj(value=False, guardCounter=0)
+        visited.clear()
 
         def on_call(it, fn, n, env):
             cs = n.get('cs') or ''
@@ -1148,8 +1256,14 @@ def typing_rules(db, rule, tier='quick'):
                 args = [it.eval(fn, S[a], env) for a in n['args'][:2]]
                 log.append((EID.get(args[0], args[0]), args[1]))
                 return None
+            if cs == '__assert_fail':
+                return None                           # release semantics: asserts are compiled out
             if last == 'ChildrenCount':
-                return len(ts)
+                return idx[0] if binder else len(ts)
+            if last == 'VisitChild' and binder:
+                c_ = this['currentType']
+                visited.append(c_['v'] if isinstance(c_, Obj) and c_.get('__kind__') == 'typ' else c_)
+                return True
             if last == 'SetCurrent' and cs.startswith(TA):
                 v = it.eval(fn, S[n['args'][0]], env)
                 this['currentType'] = v
@@ -1202,6 +1316,7 @@ def typing_rules(db, rule, tier='quick'):
 
     def show(x):
         return 'LOGIC' if x == 'LOGIC' else _show_t(x)
+    visited = []
     total = 0
     for name, toks, arities, idxs in TYPING_CASES:
         f = methods.get(name)
@@ -1227,12 +1342,16 @@ def typing_rules(db, rule, tier='quick'):
                                     bad = bad or '%s is given type %s; the typing rule gives %s' % (desc, show(cur), show(want[1]))
                                 elif log:
                                     bad = bad or '%s is accepted but an error was logged: %s' % (desc, log)
+                                elif name == 'ViTupleDeclaration':
+                                    comps = [ANY] * idx[0] if ts[0] == ANY else list(ts[0][1])
+                                    if visited != comps:
+                                        bad = bad or '%s declares its variables with the types %s; the components are %s' % (desc, [show(x) for x in visited], [show(x) for x in comps])
                             else:
                                 if ok:
                                     bad = bad or '%s is ill-typed but is accepted with type %s' % (desc, show(cur))
                                 elif not log:
                                     bad = bad or '%s is rejected without an error' % desc
-                                elif isinstance(log[0][1], int) and (('self' if log[0][1] < 1000 else log[0][1] // 1000 - 1) != want[1]):
+                                elif isinstance(log[0][1], int) and not _at(('self' if log[0][1] < 1000 else log[0][1] // 1000 - 1), want[1]):
                                     bad = bad or '%s: the error is reported at %s, the offending operand is child %s' % (desc, 'the construct itself' if log[0][1] < 1000 else 'child %d' % (log[0][1] // 1000 - 1), want[1])
                             if bad:
                                 break
@@ -1244,7 +1363,7 @@ def typing_rules(db, rule, tier='quick'):
                     break
             # an ill-typed operand makes the construct ill-typed, whatever the other operands are (in particular when one of them is the
             # empty set / any-type, for which several rules return early)
-            if not bad:
+            if not bad and name != 'ViTupleDeclaration':
                 others = [EMPTY, ANY, ('b', ('t', (('e', 'X1'), ('e', 'X2')))), ('b', ('e', 'X1'))]
                 for tok in toks[:1]:
                     for n_ops in arities:
